@@ -22,6 +22,35 @@ def matching_tensor(t):
     return X
 
 
+LEVELS = [0, -20, -30]          # SVDDecomp.Levels
+MENUS = {1: [[3]], 2: [[5, 2], [2, 2]], 3: [[5, 3, 2], [3, 3, 1]], 4: [[5, 3, 2, 1], [5, 2, 2, 1]]}      # SVDDecomp.MagMenus
+
+
+def rotated_tensor(t):
+    """Graded tier: the matching tensor with entries vals * 2^exps, multiplied along every mode by a (seeded)
+    orthogonal matrix -- dense, same singular values of every unfolding."""
+    shape = tuple(t["shape"])
+    X = np.zeros(shape)
+    for ix, v, g in zip(t["idx"], t["vals"], t["exps"]):
+        X[tuple(ix)] = float(v) * 2.0 ** g
+    rng = np.random.RandomState(t["tseed"])
+    for k, d in enumerate(shape):
+        Q, _ = np.linalg.qr(rng.normal(size=(d, d)))
+        X = np.moveaxis(np.tensordot(Q, X, axes=(1, k)), 0, k)
+    return X
+
+
+def draw_rotated(rng, shape):
+    p = min(min(shape), rng.choice([2, 2, 3]))
+    cols = [sorted(rng.sample(range(shape[0]), p))] + [rng.sample(range(d), p) for d in shape[1:]]
+    mags = list(rng.choice(MENUS[p]))
+    rng.shuffle(mags)
+    exps = [0] + [rng.choice(LEVELS[1:]) if rng.random() < 0.8 else 0 for _ in range(p - 1)]
+    rng.shuffle(exps)
+    return {"op": "rotated", "shape": list(shape), "idx": [[c[q] for c in cols] for q in range(p)],
+            "vals": [m * rng.choice([-1, 1]) for m in mags], "exps": exps, "tseed": rng.randrange(2**31)}
+
+
 def measured_tensor(t):
     shape, fam = tuple(t["shape"]), t["fam"]
     rng = np.random.RandomState(t["tseed"])
@@ -113,16 +142,18 @@ def execute(case):
     from tensorly.decomposition import (tucker, tensor_train, tensor_train_matrix, tensor_ring,
                                         Tucker, TensorTrain, TensorTrainMatrix, TensorRing)
     c, t = case["cfg"], case["ten"]
-    X = matching_tensor(t) if t["op"] == "matching" else measured_tensor(t)
+    X = matching_tensor(t) if t["op"] == "matching" else rotated_tensor(t) if t["op"] == "rotated" else measured_tensor(t)
     dtype = case.get("dtype", "float64")
     pow2 = int(case.get("pow2", 0))
     unit = 2.0 ** pow2             # exact scaling; the contract is scale invariant
     Xin = (X * unit).astype(dtype) if pow2 else X.astype(dtype)   # integer dtypes only for integer-valued tensors (trace spec)
     ev = {"id": case["id"], "cfg": c, "svd": case["svd"], "iters": case["iters"], "dtype": dtype, "pow2": pow2,
-          "ten": {k: v for k, v in t.items() if k in ("op", "shape", "idx", "vals", "fam")}}
+          "ten": {k: v for k, v in t.items() if k in ("op", "shape", "idx", "vals", "fam", "exps")}}
     nrm2 = float(np.sum(X ** 2))
     if t["op"] == "matching":
         ev["data"] = [int(v) for v in X.ravel()]
+        scale, den = 10**6, 1.0
+    elif t["op"] == "rotated":
         scale, den = 10**6, 1.0
     else:
         scale, den = 10**8, nrm2
@@ -132,7 +163,7 @@ def execute(case):
             mr = min(M.shape)
             tails.append([max(0, q(float(np.sum(s[r:mr] ** 2)) / den, scale)) for r in range(mr + 1)])
         ev["tails"] = tails
-    out = {"raised": False, "exc": "none", "about_rank": False, "ranks": [], "err2_q": 0, "rel_q": 0, "fin": False}
+    out = {"raised": False, "exc": "none", "about_rank": False, "ranks": [], "err2_q": 0, "rel_q": 0, "fin": False, "err2_lv": [0] * len(LEVELS)}
     np.random.seed(case["seed"] % (2**32))       # tensor_train / tensor_ring have no random_state argument
     rspec, via = case.get("rspec", "list"), case.get("via", "function")
     ev["rspec"], ev["frac"], ev["via"] = rspec, int(case.get("frac", 0)), via
@@ -185,6 +216,10 @@ def execute(case):
             with np.errstate(all="ignore"):
                 e2 = float(np.sum((X - rec / unit) ** 2))
                 v = q(e2 / den, scale)
+                lv = [q(e2 / 4.0 ** g, 10**6) for g in LEVELS]           # err^2 in the units of every level (graded tier)
+                out["err2_lv"] = [x if isinstance(x, int) and x >= 0 else 2 * 10**9 for x in lv]
+                if t["op"] == "rotated" and not isinstance(v, int):
+                    v = 2 * 10**9                                        # huge relative to level 0: still a finite measurement
                 relq = q(np.sqrt(e2 / nrm2) if nrm2 > 0 else 0.0, 10**12)
                 out["rel_q"] = relq if isinstance(relq, int) else 2 * 10**9
             if isinstance(v, int):
@@ -332,6 +367,8 @@ def run(chk, opts):
     for v in tens.values():
         v.sort(key=lambda t: (len(t["vals"]), t["idx"], t["vals"]))
     algs.sort(key=lambda c: (len(c["shape"]), c["shape"], c["op"], c["mode"], c["rank"]))
+    graded = [c for c in algs if tuple(c["shape"]) not in tens]          # SVDDecomp.GradedShapes (no enumerated tensors)
+    algs = [c for c in algs if tuple(c["shape"]) in tens]
     cases = []
     for k, c in enumerate(algs):
         pool = tens[tuple(c["shape"])]
@@ -345,6 +382,18 @@ def run(chk, opts):
                     "dtype": dtypes[(k // 2 + m) % len(dtypes)]}             # matching tensors are integer valued: every dtype applies
             case.update(rank_form(rng, c, k + 7 * m))
             cases.append(in_domain(case))
+    # graded tier: configurations of SVDDecomp.GradedShapes on rotated matching tensors with graded spectra
+    for k, c in enumerate(graded):
+        methods = svds if thorough else [("truncated_svd", "truncated_svd", "symeig_svd", "truncated_svd", "randomized_svd")[k % 5]]
+        for m, svd in enumerate(methods):
+            ten = draw_rotated(rng, c["shape"])
+            if svd == "symeig_svd":
+                ten["exps"] = [0] * len(ten["exps"])          # SVDDecomp.GradedOK: the Gram-matrix method is obliged on ungraded spectra
+            case = {"cfg": c, "ten": ten, "svd": svd, "dtype": "float64",
+                    "iters": iters[(k + m) % len(iters)] if c["op"] == "tucker" else 0}
+            case.update(rank_form(rng, c, k + 7 * m))
+            case["pow2"] = 0
+            cases.append(case)
     # rank specifications the routine resolves itself ('same', float), on a matching tensor of every shape
     for shape in sorted(tens):
         pool = tens[shape]
